@@ -26,7 +26,27 @@ def nontrivial(src, out):
     return "Gradient" in out
 
 
-P = RenderProp(features, "color", n_quick=110, n_thorough=700, nontrivial=nontrivial)
+def special(rng):
+    """user-space gradients whose coordinates are percentages of a non-square viewport"""
+    if rng.random() > 0.12:
+        return None
+    w, h = rng.choice([(120, 80), (90, 140), (200, 100)])
+    def pc(lo, hi):
+        return "%d%%" % rng.randint(lo, hi)
+    if rng.random() < 0.6:
+        g = ('<radialGradient id="g" gradientUnits="userSpaceOnUse" cx="%s" cy="%s" r="%s" fx="%s" fy="%s"%s>' % (
+            pc(35, 65), pc(35, 65), pc(30, 50), pc(40, 60), pc(40, 60), rng.choice(["", ' spreadMethod="reflect"'])))
+        tag = "radialGradient"
+    else:
+        g = '<linearGradient id="g" gradientUnits="userSpaceOnUse" x1="%s" y1="%s" x2="%s" y2="%s">' % (pc(0, 30), pc(0, 40), pc(60, 100), pc(50, 100))
+        tag = "linearGradient"
+    stops = '<stop offset="0" stop-color="red"/><stop offset="0.6" stop-color="blue"/><stop offset="1" stop-color="lime"/>'
+    tr = rng.choice(["", ' transform="translate(5 3)"', ' transform="scale(0.9) rotate(10)"'])
+    return ('<svg xmlns="http://www.w3.org/2000/svg" viewBox="0 0 %d %d"><defs>%s%s</%s></defs><rect x="%d" y="%d" width="%d" height="%d" fill="url(#g)"%s/></svg>'
+            % (w, h, g, stops, tag, w // 10, h // 10, w * 7 // 10, h * 7 // 10, tr))
+
+
+P = RenderProp(features, "color", n_quick=110, n_thorough=700, nontrivial=nontrivial, special=special)
 correspondence = P.correspondence
 replay = P.replay
 
